@@ -1,0 +1,112 @@
+//go:build verif
+
+// Contracts for package ast, checked by /verif/engine (govc). Compiled only
+// with the build tag "verif".
+package ast
+
+import "errors"
+
+// ghost vocabulary (interpreted by govc; bodies are never executed)
+
+func old[T any](x T) T       { return x }
+func implies(a, b bool) bool { return !a || b }
+func iff(a, b bool) bool     { return a == b }
+func ite[T any](c bool, a, b T) T {
+	if c {
+		return a
+	}
+	return b
+}
+func is[T any](v any) bool                       { _, ok := v.(T); return ok }
+func as[T any](v any) T                          { return v.(T) }
+func errIs(err, target error) bool               { return errors.Is(err, target) }
+func fresh(p any) bool                           { return true }
+func ncalls(f any) int                           { return 0 }
+func callarg[T any](f any, name string) T        { var z T; return z }
+func callret[T any](f any, i int) T              { var z T; return z }
+func forall(f any) bool                          { return true }
+func exists(f any) bool                          { return true }
+func uninterp[T any](name string, args ...any) T { var z T; return z }
+
+// ---------------------------------------------------------------------------
+// getters used by the executor: pure functions of the (immutable) node
+
+//@ func (*AST).IsStrict
+//@ props C07 C19
+//@ pure
+//@ ensures r0 == !a.IsLax()
+
+//@ func (UnaryOperator).String
+//@ props C05
+//@ pure
+//@ trusted "stringer-generated table lookup: the result is never the empty string"
+//@ ensures len(r0) >= 1
+
+// ---------------------------------------------------------------------------
+// wfAST: structural facts about parser-produced trees that the executor
+// relies on. They are stated as (trusted) postconditions of the getters; the
+// parser side (constructors + grammar actions + validateNode) establishes
+// them. Listed as an assumption in every evidence file that uses them.
+
+//@ func (*AST).Root
+//@ props C05
+//@ pure
+//@ trusted "wfAST: New() is only called by the parser with a non-nil root"
+//@ ensures r0 != nil
+
+//@ func (*ConstNode).Const
+//@ props C05
+//@ pure
+//@ trusted "wfAST: constant kinds come from the grammar actions"
+//@ ensures r0 >= ConstRoot && r0 <= ConstNull
+
+//@ func (*MethodNode).Name
+//@ props C05
+//@ pure
+//@ trusted "wfAST: method names come from the grammar actions"
+//@ ensures r0 >= MethodAbs && r0 <= MethodString
+
+//@ func (*BinaryNode).Operator
+//@ props C05
+//@ pure
+//@ trusted "wfAST: operators come from the grammar actions"
+//@ ensures r0 >= BinaryAnd && r0 <= BinaryDecimal
+
+//@ func (*UnaryNode).Operator
+//@ props C05
+//@ pure
+//@ trusted "wfAST: operators come from the grammar actions"
+//@ ensures r0 >= UnaryExists && r0 <= UnaryTimestampTZ
+
+//@ func (*BinaryNode).Left
+//@ props C05
+//@ pure
+//@ trusted "wfAST: binary operators other than .decimal() have a left operand"
+//@ ensures n.Operator() != BinaryDecimal ==> r0 != nil
+//@ ensures (n.Operator() == BinaryAnd || n.Operator() == BinaryOr) ==> r0.Next() == nil && (is[*BinaryNode](r0) || is[*UnaryNode](r0) || is[*RegexNode](r0))
+
+//@ func (*BinaryNode).Right
+//@ props C05
+//@ pure
+//@ trusted "wfAST: binary operators other than subscripts and .decimal() have a right operand"
+//@ ensures n.Operator() != BinaryDecimal && n.Operator() != BinarySubscript ==> r0 != nil
+//@ ensures (n.Operator() == BinaryAnd || n.Operator() == BinaryOr) ==> r0.Next() == nil && (is[*BinaryNode](r0) || is[*UnaryNode](r0) || is[*RegexNode](r0))
+
+//@ func (*UnaryNode).Operand
+//@ props C05
+//@ pure
+//@ trusted "wfAST: unary operators other than the datetime methods have an operand"
+//@ ensures n.Operator() < UnaryDateTime ==> r0 != nil
+//@ ensures (n.Operator() == UnaryNot || n.Operator() == UnaryIsUnknown || n.Operator() == UnaryFilter) ==> r0.Next() == nil && (is[*BinaryNode](r0) || is[*UnaryNode](r0) || is[*RegexNode](r0))
+
+//@ func (*RegexNode).Operand
+//@ props C05
+//@ pure
+//@ trusted "wfAST: like_regex has an operand"
+//@ ensures r0 != nil
+
+//@ func (*ArrayIndexNode).Subscripts
+//@ props C05 C14
+//@ pure
+//@ trusted "wfAST: subscripts are BinarySubscript nodes"
+//@ ensures forall(func(i int) bool { return implies(0 <= i && i < len(r0), is[*BinaryNode](r0[i]) && as[*BinaryNode](r0[i]).Operator() == BinarySubscript) })
